@@ -1,4 +1,6 @@
 import GenlmModel.Model.Json
+import GenlmModel.Model.Transform
+import GenlmModel.Model.Shape
 /-! Operation dispatch of the driver: one JSON object in, one JSON object out. -/
 namespace Genlm
 open Lean (Json)
@@ -36,8 +38,94 @@ def opWn (j : Json) : E Json := do
                     ("half", .arr (xs.map fun x => Wt.toJson (h.get G.S x)).toArray),
                     ("n", .num ⟨used, 0⟩), ("stable", .bool stable), ("keys", .num ⟨keys.length, 0⟩)])
 
-def runOpK (op : String) (j : Json) : E Json :=
+/-- Python `str(x)` for the names the library formats into `_gen_nt` prefixes -/
+def pyStr : Sx → String
+  | .s v => v
+  | .i v => toString v
+  | _ => "?"
+
+def genNt (pre : String) (i : Nat) : Sx := .s (pre ++ "@" ++ toString i)
+
+def optNat (j : Json) (k : String) (d : Nat) : E Nat :=
+  match j.getObjVal? k with | .ok v => getNat v | _ => pure d
+
+/-- [[sym, w], …] → total function, default 0 -/
+def fun1OfJson (j : Json) : E (Sx → K) := do
+  let l ← (← getArr j).mapM fun e => do
+    match ← getArr e with
+    | [a, w] => pure ((← sxOfJson a), (← Wt.ofJson w : K))
+    | _ => throw "bad pair"
+  pure fun x => match l.find? (fun e => e.1 = x) with | some e => e.2 | none => 0
+
+/-- [[a, b, w], …] → total function of two arguments, default 0 -/
+def fun2OfJson (j : Json) : E (Sx → Sx → K) := do
+  let l ← (← getArr j).mapM fun e => do
+    match ← getArr e with
+    | [a, b, w] => pure (((← sxOfJson a), (← sxOfJson b)), (← Wt.ofJson w : K))
+    | _ => throw "bad triple"
+  pure fun x y => match l.find? (fun e => e.1 = (x, y)) with | some e => e.2 | none => 0
+
+def utf8 : Sx → List Sx
+  | .s v => v.toUTF8.toList.map fun b => Sx.i b.toNat
+  | x => [x]
+
+def cfgOut (G : CFG Sx K) (ctr : Nat) : Json :=
+  Json.mkObj [("cfg", cfgToJson G), ("ctr", .num ⟨ctr, 0⟩)]
+
+variable [DecidableEq K] in
+/-- {"op":"transform","name":…,"cfg":…,"ctr":k,…} → {"cfg":…,"ctr":k'} — mirror models of cfg.py -/
+def opTransform (j : Json) : E Json := do
+  let G : CFG Sx K ← cfgOfJson (← getField j "cfg")
+  let name ← getStr (← getField j "name")
+  let ctr ← optNat j "ctr" 0
+  match name with
+  | "separate_start" => pure (cfgOut (separateStart G (genNt (pyStr G.S) (ctr + 1))) (if G.S ∈ bodySyms G then ctr + 1 else ctr))
+  | "separate_terminals" => let (G', c) := separateTerminals (genNt "") G ctr; pure (cfgOut G' c)
+  | "binarize" => let (G', c) := binarize (genNt "") G ctr; pure (cfgOut G' c)
+  | "push_null" => do
+      let nw ← fun1OfJson (K := K) (← getField j "null_weight")
+      pure (cfgOut (pushNull nw (fun x => Sx.tag "NotNull" [x]) G) ctr)
+  | "unaryremove" => do
+      let W ← fun2OfJson (K := K) (← getField j "W")
+      pure (cfgOut (unaryRemove W G) ctr)
+  | "unfold" => do
+      let i ← getNat (← getField j "i")
+      let k ← getNat (← getField j "k")
+      match unfoldRule G i k with
+      | some G' => pure (cfgOut G' ctr)
+      | none => pure (Json.mkObj [("exc", "Assertion")])
+  | "trim" => pure (cfgOut (trim G) ctr)
+  | "cotrim" => pure (cfgOut (cotrim G) ctr)
+  | "derivative" => do
+      let a ← sxOfJson (← getField j "a")
+      let i ← optNat j "i" 0
+      let U ← fun1OfJson (K := K) (← getField j "U")
+      pure (cfgOut (derivative (fun x => Sx.tag "Slash" [x, a, .i i]) U a G) ctr)
+  | "to_bytes" => pure (cfgOut (cfgToBytes utf8 G) ctr)
+  | "add_eos" => do
+      let eos ← sxOfJson (← getField j "eos")
+      pure (cfgOut { (addEOS G (genNt "<START>" (ctr + 1)) eos) with V := G.V ++ [eos] } (ctr + 1))
+  | "sep_start_unconditional" => pure (cfgOut (sepStart G (genNt (pyStr G.S) (ctr + 1))) (ctr + 1))
+  | _ => throw s!"unknown transformation {name}"
+
+variable [DecidableEq K] in
+/-- {"op":"shape","cfg":…,"orig":…} → the C07 predicates on `cfg` -/
+def opShape (j : Json) : E Json := do
+  let G : CFG Sx K ← cfgOfJson (← getField j "cfg")
+  let og : Option (CFG Sx K) ← match j.getObjVal? "orig" with
+    | .ok v => do pure (some (← cfgOfJson v))
+    | _ => pure none
+  let b (x : Bool) : Json := .bool x
+  pure (Json.mkObj [("in_cnf", b (inCNFb G)), ("start_off_rhs", b (startOffRhs G)),
+    ("no_nullary_except_start", b (noNullaryExceptStart G)), ("no_unary", b (noUnary G)),
+    ("arity_le_2", b (arityLe2 G)), ("terminals_separated", b (terminalsSeparated G)),
+    ("no_unary_cycle", b (noUnaryCycle G)), ("trim_useful", b (trimUseful G)),
+    ("orig_start_generating", b (match og with | some o => decide (o.S ∈ generating o) | none => true))])
+
+def runOpK [DecidableEq K] (op : String) (j : Json) : E Json :=
   match op with
+  | "shape" => opShape (K := K) j
+  | "transform" => opTransform (K := K) j
   | "wn" => opWn (K := K) j
   | _ => throw s!"unknown op {op}"
 end
@@ -47,7 +135,7 @@ def runOp (j : Json) : E Json := do
   let R ← match j.getObjVal? "R" with | .ok (.str r) => pure r | _ => pure "Float"
   match R with
   | "Float" | "Real" => runOpK (K := Rat) op j
-  | "F64" => runOpK (K := Float) op j
+  | "F64" => opWn (K := Float) j
   | "Boolean" => runOpK (K := BoolW) op j
   | "MaxTimes" => runOpK (K := MaxT) op j
   | _ => throw s!"unknown semiring {R}"
